@@ -105,6 +105,7 @@ class PipeTable(object):
             if p.holders:
                 self.blocked_reads += 1
                 self.reads.append((fd, n, None))
+                self.kernel.clock.tripped = True         # the loop thread is stuck in read(2): nothing else is served
                 raise BlockedLoop('os.read on an empty pipe (fd %d) whose writer is still alive: the loop thread blocks' % fd)
             p.eof_delivered = True
             self.reads.append((fd, n, 0))
